@@ -44,7 +44,8 @@ CAAccept(r) ==
   \* with a stale cached key set an assertion WITHOUT kid is checked against whatever key the stale set offers (the refresh is
   \* triggered by a key that cannot be found, and without kid any key of the right type is "found"): refused, which the
   \* statement (an "only if") permits
-  /\ (r.keysrc = "uri_stale" => r.kid = "right")
+  \* (the stale set holds an RSA key: an ES256 client's key can never be "found" in it, so the refresh always happens)
+  /\ ((r.keysrc = "uri_stale" /\ r.regalg \in {"RS256", "PS256"}) => r.kid = "right")
 CARows == { [tbl |-> "CA", f |-> r, accept |-> CAAccept(r)] : r \in {x \in CAVals : CADev(x) <= MaxDev} }
 
 (* ---- JWT-bearer grants ------------------------------------------------------- *)
